@@ -184,7 +184,7 @@ const TERMS: &[&str] = &["。", "？", "！", "♪", "…", "?", "!", ".", "．"
 const BRACKETS: &[&str] = &["(", ")", "（", "）", "「", "」", "『", "』", "[", "]", "{", "}", "｛", "｝", "【", "】", "“", "”", "≪", "≫", "〔", "〕", "［", "］"];
 const COMMA_TOK: &[&str] = &[",", "，", "、"];
 const ANS: &[&str] = &["a", "Z", "1", "９", "一", "十", "ａ", "Ｚ", "0", "兆", "3.14", "a.b", "1.", "(a)", "a．", "２．"];
-const KANA: &[&str] = &["あ", "い", "う", "ア", "𠮷", "é", "漢"];
+const KANA: &[&str] = &["あ", "い", "う", "ア", "𠮷", "é", "漢", "\\", "^", "-", "|", "$", "*", "+", "&", "~", "#", "\"", "'", "/", "C:\\temp", "\\n", "a-z", "＼", "¥"];
 const PARTICLES: &[&str] = &["と", "って", "っ", "です", "で", "や", "の", "という"];
 const SPACES: &[&str] = &[" ", "\u{3000}", "\n", "\t", "  ", "\u{85}", "\u{a0}", "\r\n", "\u{2028}", "\u{200b}"];
 const TAGS: &[&str] = &["<br>", "<BR>", "<br><br>", "<BR><br>", "<br><BR><br>", "<Br>", "<br", "<", "br>"];
